@@ -7,6 +7,7 @@ import (
 	"time"
 
 	"github.com/beevik/etree"
+	saml2 "github.com/russellhaering/gosaml2"
 	dsig "github.com/russellhaering/goxmldsig"
 
 	"verifharness/idp"
@@ -129,8 +130,11 @@ func (Time) Run(c *orch.Case) *orch.Outcome {
 	}
 	doc := idp.Serialize(root, lay, rng)
 	enc := idp.Encode(doc, c.Seed%3 == 0)
-	sp := w.NewSP()
-	sp.Clock = dsig.NewFakeClockAt(world.Tick(cfg.Now))
+	sp := spFor(c.Seed, fmt.Sprint("time", cfg.Now), func() *saml2.SAMLServiceProvider {
+		sp := w.NewSP()
+		sp.Clock = dsig.NewFakeClockAt(world.Tick(cfg.Now))
+		return sp
+	})
 	o := &tmObs{}
 	func() {
 		defer func() {
